@@ -145,6 +145,9 @@ def gen(t, tier):
     # the worker processes start together: each builds its cache object and tile manager when its first request runs (the
     # other threads of the process wait for it), not one after the other before the first request
     sc['lazy'] = bool(t.chance(0.3))
+    # one flock() call on a tile lock file fails for a reason other than contention (no lock records left, a hiccup of the
+    # lock daemon of a network file system): that attempt did not get the lock
+    sc['flock_fault'] = {'at': t.choice(10), 'errno': t.pick(['ENOLCK', 'ENOLCK', 'EIO'])} if t.chance(0.15) else None
     # linked single-colour tiles under a refresh rule: the file shared by all tiles of the colour was written hours ago (by a
     # tile nobody asks for now), tiles older than an hour are to be refreshed
     sc['aged_colour'] = sc['backend'].get('link') == 'symlink' and bool(t.chance(0.5))
@@ -459,6 +462,20 @@ def _run_tm(sc, tape):
     viol = []
     killed = []
 
+    if sc.get('flock_fault'):
+        ff_count = [0]
+
+        def _flock_fault(op, key, proc):
+            if op == 'flock' and str(key).startswith(LOCKDIR):
+                n_ = ff_count[0]
+                ff_count[0] += 1
+                if n_ == sc['flock_fault']['at']:
+                    import errno as _errno
+                    faults['flock_error_' + sc['flock_fault']['errno']] = 1
+                    code_ = getattr(_errno, sc['flock_fault']['errno'])
+                    raise OSError(code_, os.strerror(code_))
+            return None
+        w.fs.fault_hook = _flock_fault
     if sc.get('aged_colour'):
         import mapproxy.util.times as times_mod
         w.extra_patches.append((times_mod, 'datetime', C.datetime_module(w.clock)))     # relative rules read the simulated clock
